@@ -74,7 +74,7 @@ func init() {
 		st.assume("(> " + ref + " 0)")
 		arr := e.q.fresh(p+"_elems", "(Array Int "+e.u.sortOf(et)+")")
 		i := e.q.freshBound("i")
-		st.assume(fmt.Sprintf("(forall ((%[1]s Int)) (=> (and (<= 0 %[1]s) (< %[1]s (s_len %[2]s))) (= (select %[3]s %[1]s) (select (select %[4]s (s_arr %[2]s)) (+ (s_off %[2]s) %[1]s)))))", i, s.term, arr, st.get(ek)))
+		st.assume(fmt.Sprintf("(forall ((%[1]s Int)) (=> (and (<= 0 %[1]s) (< %[1]s (s_len %[2]s))) (= (select %[3]s %[1]s) (select (select %[4]s (s_arr %[2]s)) %[5]s))))", i, s.term, arr, st.get(ek), e.q.idxOf(s.term, i)))
 		st.set(ek, store(st.get(ek), ref, arr))
 		res := e.q.define(p, sortSlice, ite("(= (s_arr "+s.term+") 0)", "nil_slice", fmt.Sprintf("(mk_slice %s 0 (s_len %s) (s_len %s))", ref, s.term, s.term)))
 		return Value{term: res, typ: rt}
@@ -140,7 +140,7 @@ func init() {
 		ek := e.elemKey(et)
 		i := e.q.freshBound("i")
 		r := e.q.fresh(p, sortBool)
-		st.assume(fmt.Sprintf("(= %[1]s (exists ((%[2]s Int)) (and (<= 0 %[2]s) (< %[2]s (s_len %[3]s)) (= (select (select %[4]s (s_arr %[3]s)) (+ (s_off %[3]s) %[2]s)) %[5]s))))", r, i, s.term, st.get(ek), v.term))
+		st.assume(fmt.Sprintf("(= %[1]s (exists ((%[2]s Int)) (and (<= 0 %[2]s) (< %[2]s (s_len %[3]s)) (= (select (select %[4]s (s_arr %[3]s)) %[6]s) %[5]s))))", r, i, s.term, st.get(ek), v.term, e.q.idxOf(s.term, i)))
 		return Value{term: r, typ: boolT}
 	}
 	trustedModels = map[string]modelFn{
@@ -152,7 +152,7 @@ func init() {
 				if c, ok := curCall.Args[0].(*ssa.Const); ok && c.Value != nil && c.Value.Kind() == constant.String && constant.StringVal(c.Value) == "%s_%s" {
 					ek := e.elemKey(types.Universe.Lookup("any").Type())
 					el := func(i int) string {
-						return sel(sel(st.get(ek), "(s_arr "+a[1].term+")"), fmt.Sprintf("(+ (s_off %s) %d)", a[1].term, i))
+						return sel(sel(st.get(ek), "(s_arr "+a[1].term+")"), e.q.idxOf(a[1].term, fmt.Sprint(i)))
 					}
 					isStr := func(x string) string {
 						return "((_ is VStr) (ival " + x + "))"
@@ -161,6 +161,22 @@ func init() {
 				}
 			}
 			return res
+		},
+		"(*math/rand.Rand).Int63n": func(e *Enc, fr *frame, st *State, a []Value, p string, rt types.Type) Value {
+			e.oblige(st, "nopanic", "rand.Int63n n<=0", "(> "+a[1].term+" 0)", 0)
+			r := e.freshValue(st, p, rt)
+			st.assume("(and (<= 0 " + r.term + ") (< " + r.term + " " + a[1].term + "))")
+			return r
+		},
+		"fmt.Errorf": func(e *Enc, fr *frame, st *State, a []Value, p string, rt types.Type) Value {
+			r := e.freshValue(st, p, rt)
+			st.assume("(not (= (itag " + r.term + ") 0))")
+			return r
+		},
+		"errors.New": func(e *Enc, fr *frame, st *State, a []Value, p string, rt types.Type) Value {
+			r := e.freshValue(st, p, rt)
+			st.assume("(not (= (itag " + r.term + ") 0))")
+			return r
 		},
 		"strings.HasPrefix": func(e *Enc, fr *frame, st *State, a []Value, p string, rt types.Type) Value {
 			return Value{term: e.q.define(p, sortBool, "(str.prefixof "+a[1].term+" "+a[0].term+")"), typ: boolT}
@@ -184,6 +200,7 @@ func init() {
 			st.assume(fmt.Sprintf("(and (>= %[1]s 1) (<= %[1]s (+ (str.len %[4]s) 1)) (forall ((%[2]s Int)) (=> (and (<= 0 %[2]s) (< %[2]s %[1]s)) (= (select %[3]s %[2]s) (comp %[4]s %[5]s %[2]s)))))", n, i, arr, a[0].term, a[1].term))
 			st.set(ek, store(st.get(ek), ref, arr))
 			res := e.q.define(p, sortSlice, fmt.Sprintf("(mk_slice %s 0 %s %s)", ref, n, n))
+			e.q.markOff0(res)
 			st.assume(e.wfSlice(st, res))
 			return Value{term: res, typ: rt}
 		},
